@@ -291,8 +291,113 @@ class ParentConsistency(Case):
                 for strand in (None, "PLUS", "MINUS"):
                     for loc in (None, dict(end=3, strand="PLUS", parent=None), dict(end=6, strand="MINUS", parent="chr2"),
                                 dict(end=3, strand="PLUS", parent="chr1")):
-                        for seq in (None, dict(text="ACGT", id=None, type=None), dict(text="ACGT", id="chr1", type="other")):
+                        for seq in (None, dict(text="ACGT", id=None, type=None), dict(text="ACGT", id="chr1", type="other"),
+                                    dict(text="", id=None, type=None)):  # an EMPTY sequence still bounds the location
                             yield dict(pid=pid, ptype=ptype, strand=strand, loc=loc, seq=seq)
+
+
+class ParentExplicitParent(Case):
+    """Parent(sequence=<Sequence that has its own parent>, parent=<explicit parent carrying THIS level's location on the
+    grandparent>): the explicit parent wins (after the equal-except-location check) - its location is the map that
+    lift-over uses; a Sequence's own parent is only the fallback."""
+    props = ("C19", "C04")
+    name = "Parent.__init__[explicit parent= next to a Sequence that has its own parent]"
+    func = "parent.parent.Parent.__init__"
+    module = "parent.parent"
+    call = ("(lambda p: (p.parent.location.start, p.parent.location.end, p.parent.id))"
+            "(Parent(id='mid', sequence=seq, parent=explicit))")
+    ensures = {"explicit-parent-kept-with-its-location": lambda i, r: And(r[0] == i.a, r[1] == i.b, r[2] == "top")}
+
+    def inputs(self, S):
+        a, b = S.int("a"), S.int("b")
+        S.assume(And(0 <= a, a <= b))
+        own = S.new(PARENT, id="top")
+        seq = S.new(SEQUENCE, "ACGT", S.enum_const(ALPHABET, "NT_STRICT"), id="mid", parent=own)
+        explicit = S.new(PARENT, id="top", location=S.new(SINGLE, a, b, S.enum_const(STRAND, "PLUS")))
+        return NS(seq=seq, explicit=explicit, a=a, b=b, Parent=S.cls(PARENT))
+
+    def samples(self, rng):
+        a = rng.randint(0, 9)
+        return dict(a=a, b=a + rng.randint(0, 9))
+
+
+class ChunkParentGuards(Case):
+    """A hand-built ``parent_or_seq_chunk_parent``: an interval may be placed on a sequence chunk only if the chunk's
+    ancestry leads to a chromosome (the coordinates an interval is constructed with are chromosome coordinates).  Chunk
+    without any parent, chunk placed on an UNTYPED grandparent, chunk placed on a grandparent typed 'contig', placement
+    without grandparent: documented NoSuchAncestorException; chunk record without sequence text: NullSequenceException;
+    a well-formed chunk: chromosome coordinates minus the chunk offset.  Through the static helper and through the
+    FeatureInterval constructor."""
+    props = ("C19", "C04", "C07")
+    func = "gene.interval.AbstractInterval.liftover_location_to_seq_chunk_parent"
+    module = "gene.feature"
+    NO_ANCESTOR = ("naked chunk", "untyped grandparent", "contig grandparent", "placement without grandparent",
+                   "chunk record, no chromosome")
+    ensures = {
+        "chromosome-coordinates-minus-chunk-offset": lambda i, r: And(
+            r[0] == i.a - (i.off if i.kind.startswith("chromosome") else 0),
+            r[1] == i.b - (i.off if i.kind.startswith("chromosome") else 0)),
+    }
+
+    KINDS = ("chromosome (enum)", "chromosome (str)", "untyped grandparent", "contig grandparent",
+             "placement without grandparent", "naked chunk", "chunk record without sequence",
+             "chunk record, no chromosome", "plain chromosome parent", "untyped parent")
+
+    def __init__(self, via, kind):
+        self.via, self.kind = via, kind
+        self.name = f"liftover_location_to_seq_chunk_parent[hand-built parent: {kind}, via {via}]"
+        if kind in self.NO_ANCESTOR:
+            self.raises, self.ensures = {"NoSuchAncestorException": lambda i: True}, {}
+        elif kind == "chunk record without sequence":
+            self.raises, self.ensures = {"NullSequenceException": lambda i: True}, {}
+        if via == "constructor":
+            self.call = ("(lambda f: (f.chunk_relative_location.start, f.chunk_relative_location.end))"
+                         "(FeatureInterval([a], [b], Strand.PLUS, parent_or_seq_chunk_parent=par))")
+        else:
+            self.call = ("(lambda l: (l.start, l.end))(AbstractInterval.liftover_location_to_seq_chunk_parent("
+                         "SingleInterval(a, b, Strand.PLUS), par))")
+
+    def inputs(self, S):
+        kind = self.kind
+        a, b, off = S.int("a"), S.int("b"), S.int("off")
+        S.assume(And(0 <= off, off <= a, a < b, b <= off + 10))
+        plus = S.enum_const(STRAND, "PLUS")
+        NT = S.enum_const(ALPHABET, "NT_STRICT")
+
+        def chunk_on(grand, with_placement=True):
+            placement = S.new(PARENT, location=S.new(SINGLE, off, off + 10, plus, parent=grand)) if with_placement else None
+            seq = S.new(SEQUENCE, "ACGTACGTAC", NT, id="c", type="sequence_chunk", parent=placement)
+            return S.new(PARENT, id="c", sequence=seq)
+
+        if kind == "chromosome (enum)":
+            par = chunk_on(S.new(PARENT, id="chrI", sequence_type=S.enum_const("SequenceType", "CHROMOSOME")))
+        elif kind == "chromosome (str)":
+            par = chunk_on(S.new(PARENT, id="chrI", sequence_type="chromosome"))
+        elif kind == "untyped grandparent":
+            par = chunk_on(S.new(PARENT, id="chrI"))
+        elif kind == "contig grandparent":
+            par = chunk_on(S.new(PARENT, id="chrI", sequence_type="contig"))
+        elif kind == "placement without grandparent":
+            par = chunk_on(None)
+        elif kind == "naked chunk":
+            par = chunk_on(None, with_placement=False)
+        elif kind == "chunk record without sequence":
+            par = S.new(PARENT, id="c", sequence_type="sequence_chunk", parent=S.new(
+                PARENT, location=S.new(SINGLE, off, off + 10, plus, parent=S.new(PARENT, id="chrI", sequence_type="chromosome"))))
+        elif kind == "chunk record, no chromosome":
+            par = S.new(PARENT, id="c", sequence_type="sequence_chunk")
+        elif kind == "plain chromosome parent":
+            par = S.new(PARENT, id="chrI", sequence_type="chromosome")
+        else:
+            par = S.new(PARENT, id="whatever")
+        return NS(kind=kind, a=a, b=b, off=off, par=par, Strand=S.cls(STRAND), SingleInterval=S.cls(SINGLE),
+                  FeatureInterval=S.cls("gene.feature.FeatureInterval"),
+                  AbstractInterval=S.cls("gene.interval.AbstractInterval"))
+
+    def samples(self, rng):
+        off = rng.randint(0, 20)
+        a = off + rng.randint(0, 8)
+        return dict(off=off, a=a, b=rng.randint(a + 1, off + 10))
 
 
 class FromSingleIntervals(Case):
@@ -421,4 +526,5 @@ class OpenEndedSlice(Case):
 CASES = [OpenEndedSlice(), TranscriptCdsBounds(), TranscriptCdsArgs(), CdsInitShape("FF"), CdsInitShape("PP"), CdsInitShape("FP"),
          CdsInitShape("F"), CdsInitShape("FFF"), VariantInit(), EmptyCollections(), AnnotationCollectionBounds(),
          InitializeLocation(), SequenceInit(), ParentConsistency(), FromSingleIntervals(),
-         CompoundOnSequence("shift_position"), CompoundOnSequence("__init__")]
+         CompoundOnSequence("shift_position"), CompoundOnSequence("__init__"), ParentExplicitParent(),
+         *[ChunkParentGuards(v, k) for v in ("constructor", "static helper") for k in ChunkParentGuards.KINDS]]
